@@ -7,6 +7,7 @@
 #include <time.h>
 #include <sys/uio.h>
 #define VF_SITE(n) (n)
+struct vf_memfnptr { void *fn; long adj; };   /* Itanium ABI pointer to member function, opaque here */
 #define VF_EXPECT(x, v) (x)
 static inline int vf_cas_failure_order(int o) { return o == 4 ? 2 : (o == 3 ? 0 : o); }
 static inline int vf_ctzll(unsigned long long x) { int n = 0; if (x == 0) return 64;
